@@ -529,6 +529,29 @@ impl RawOpaquePool {
     }
 }
 
+#[cfg(folo_verif)]
+impl RawOpaquePool {
+    /// Verification hook: read-only snapshot of the pool's internal bookkeeping.
+    #[must_use]
+    pub fn verif_probe(&self) -> crate::verif::PoolProbe {
+        let (vacancy_len_bits, vacancy_blocks, next_vacancy) = self.vacancy_tracker.verif_probe();
+
+        crate::verif::PoolProbe {
+            object_layout: self.slab_layout.object_layout(),
+            slab_capacity: self.slab_layout.capacity().get(),
+            slot_layout: self.slab_layout.slot_layout(),
+            slot_to_object_offset: self.slab_layout.slot_to_object_offset(),
+            slot_meta_layout: Layout::new::<crate::SlotMeta>(),
+            slab_alloc_layout: self.slab_layout.slot_array_layout(),
+            length: self.length,
+            slabs: self.slabs.iter().map(Slab::verif_probe).collect(),
+            vacancy_len_bits,
+            vacancy_blocks,
+            next_vacancy,
+        }
+    }
+}
+
 /// Iterator over all objects in a raw opaque pool.
 ///
 /// This iterator yields untyped pointers to objects stored across all slabs in the pool.
